@@ -205,6 +205,14 @@ async def run_idle(spec: dict[str, Any], hist: History,
             for s in idlers:
                 if s.alive and tags.get(s.conn.cid):
                     compare(hist, s, truth, counters, 'round %d' % rnd)
+            # the writers must have changed the mailbox the idlers (and the
+            # probe) look at: their own view after NOOP is that mailbox too
+            for s in writers:
+                if s.alive and not hist.violations:
+                    await s.noop()
+                    await s.fetch_all()
+                    compare(hist, s, truth, counters,
+                            'round %d, writer' % rnd)
             if hist.violations:
                 break
             for s in idlers:
